@@ -59,6 +59,9 @@ def rule_regex(ctx):
     B.check_regex(ctx, "C11.REGEX", ("indi.message", "indi.transport"), "processing the receive buffer no longer terminates in any useful sense")
 
 
+# the parser's class lookup must not depend on what was parsed before (a corrupt element may not poison later valid ones)
+IMPORTS = [('C03', 'C03.READ'), ('C13', 'C13.UNKNOWN')]
+
 RULES = [
     ("C11.REGEX", rule_regex, "no regex on the parse path has an unbounded repeat with an ambiguous iteration (exponential backtracking)"),
     ("C11.PROGRESS", rule_progress, "every loop-back of both framing loops strictly advances (buffer shrinks >= 1 / scan position increases)"),
